@@ -51,7 +51,7 @@ def gen():
     def g(draw):
         depth = draw(st.integers(2, 4))
         shape = draw(st.sampled_from(["scalar", "vec5", "mat34", "batch4"]))
-        links = [{"g": draw(st.sampled_from(sorted(G))), "via": draw(st.sampled_from(["direct", "calc", "calc", "tcalc", "wvar", "bare"]))} for _ in range(depth - 1)]
+        links = [{"g": draw(st.sampled_from(sorted(G))), "via": draw(st.sampled_from(["direct", "calc", "calc", "tcalc", "wvar", "bare", "chain_kw", "chain_pos"]))} for _ in range(depth - 1)]
         names = [f"v{i}" for i in range(depth)]
         skip_kind = draw(st.sampled_from(["none", "none", "var", "dist", "value"]))
         skip_idx = draw(st.integers(0, depth - 1))
@@ -78,6 +78,13 @@ def build(c):
             loc = lsl.TransientCalc(fn, parent, _name=f"link{i}")
         elif ln["via"] == "wvar":
             loc = lsl.Var(lsl.Calc(fn, parent), name=f"link{i}")
+        elif ln["via"] in ("chain_kw", "chain_pos"):
+            # two cached calculations in a row, the second taking the first as a keyword / positional input
+            first = lsl.Calc(lambda x: jnp.asarray(x) + 3.0, parent, _name=f"link{i}_a")
+            if ln["via"] == "chain_kw":
+                loc = lsl.Calc(lambda base, _fn=fn: _fn(base - 3.0), base=first, _name=f"link{i}_b")      # (_fn bound now: fn is rebound per link)
+            else:
+                loc = lsl.Calc(lambda base, _fn=fn: _fn(base - 3.0), first, _name=f"link{i}_b")
         else:
             loc = lsl.Calc(fn, parent)
         shape_i = child_shape if i == 1 else vs[-1].value.shape
@@ -171,7 +178,7 @@ def oracle(c):
     # float32: (x - mu)/1e-3 with |x| ~ 50 has absolute error ~ 4e-6/1e-3 per element on the z-score; compare loosely but meaningfully
     zerr = sum(float(np.sum((4e-6 * np.abs(vals[k]) / 1e-3 + 1) ** 2 + 2 * 8 * (4e-6 * np.abs(vals[k]) / 1e-3))) for k in vals if k != "v0")
     require(abs(got - lp) <= 1e-4 * (abs(lp) + 1) + zerr, "model-incoherent-after-simulate-and-update", lambda: f"log_prob {got} oracle {lp} (tol {1e-4 * (abs(lp) + 1) + zerr:.3g}); {det()}")
-    cached_off = (not c["auto_update"]) and any(ln["via"] in ("calc", "wvar", "bare") or (ln["via"] == "direct" and ln["g"] != "id") for ln in c["links"])
+    cached_off = (not c["auto_update"]) and any(ln["via"] in ("calc", "wvar", "bare", "chain_kw", "chain_pos") or (ln["via"] == "direct" and ln["g"] != "id") for ln in c["links"])
     nt = cached_off or bool(skip)
     return {"nt": bool(nt), "cls": [c["shape"], "auto" if c["auto_update"] else "noauto", c["skip_kind"], f"depth{c['depth']}", "branch" if extra else "nobranch"]
             + sorted({ln["via"] for ln in c["links"]})}
